@@ -137,7 +137,11 @@ namespace GeographicLib {
     // Deatanhe(x,y) = eatanhe((x-y)/(1-e^2*x*y))/(x-y)
     real Deatanhe(real x, real y) const {
       real t = x - y, d = 1 - _e2 * x * y;
-      return t != 0 ? Math::eatanhe(t / d, _es) / t : _e2 / d;
+      // For x*y < 0 use the straight difference (as AlbersEqualArea::Datanhee
+      // does): on a prolate ellipsoid with e2 < -1, d can then be <= 0 and the
+      // addition formula for the arctangent is off by pi.
+      return t != 0 ? (x*y < 0 ? Math::eatanhe(x, _es) - Math::eatanhe(y, _es) :
+                       Math::eatanhe(t / d, _es)) / t : _e2 / d;
     }
     void Init(real sphi1, real cphi1, real sphi2, real cphi2, real k1);
   public:
